@@ -51,11 +51,78 @@ def sunkOf (s : Engine) : Store :=
   (Engine.sinkProps (·.nprops) s.runs).map (fun p => (SKey.node p.1.1 p.1.2, p.2)) ++
   (Engine.sinkProps (·.eprops) s.runs).map (fun p => (SKey.edge p.1.1 p.1.2, p.2))
 
+/-- the old entries that survive the sinking: all of them, or (replace_property_entry) those whose key
+    is not sunk again -/
+def keptOf (c : Cfg) (s : Engine) : Store :=
+  if c.sinkReplaces then s.store.filter (fun p => !(sunkOf s).any (·.1 == p.1)) else s.store
+
 theorem compact_store (c : Cfg) (s : Engine) (h : s.runs.isEmpty = false) :
-    (s.compact c).store = sunkOf s ++ s.store := by
-  unfold Engine.compact sunkOf
+    (s.compact c).store = sunkOf s ++ keptOf c s := by
+  unfold Engine.compact sunkOf keptOf sunkOf
   rw [h]
   rfl
+
+theorem lookup_filter_keep_key {κ ν} [BEq κ] [LawfulBEq κ] (l : List (κ × ν)) (p : κ × ν → Bool) (k : κ)
+    (h : ∀ q ∈ l, q.1 = k → p q = true) : (l.filter p).lookup k = l.lookup k := by
+  induction l with
+  | nil => rfl
+  | cons a as ih =>
+    have ih' := ih (fun q hq => h q (List.mem_cons_of_mem _ hq))
+    by_cases hk : a.1 = k
+    · have hp := h a List.mem_cons_self hk
+      rw [List.filter_cons_of_pos hp]
+      obtain ⟨a1, a2⟩ := a
+      simp only at hk
+      subst hk
+      simp [List.lookup_cons]
+    · obtain ⟨a1, a2⟩ := a
+      have hne : (k == a1) = false := by
+        simp only [beq_eq_false_iff_ne, ne_eq]; intro h'; exact hk h'.symm
+      by_cases hp : p (a1, a2) = true
+      · rw [List.filter_cons_of_pos hp]; simp only [List.lookup_cons, hne, ih']
+      · rw [List.filter_cons_of_neg hp]; simp only [List.lookup_cons, hne, ih']
+
+theorem lookup_some_of_mem' {κ ν} [BEq κ] [LawfulBEq κ] (l : List (κ × ν)) (r : κ × ν) (h : r ∈ l) :
+    ∃ v, l.lookup r.1 = some v := by
+  induction l with
+  | nil => cases h
+  | cons a as ih =>
+    obtain ⟨a1, a2⟩ := a
+    by_cases hk : r.1 == a1
+    · exact ⟨a2, by simp [List.lookup_cons, hk]⟩
+    · have hk' : (r.1 == a1) = false := by simpa using hk
+      rcases List.mem_cons.mp h with rfl | h'
+      · simp at hk
+      · obtain ⟨v, hv⟩ := ih h'
+        exact ⟨v, by simp only [List.lookup_cons, hk']; exact hv⟩
+
+/-- every lookup in the tree after `compact`: the sunk value of the key, else what the tree held -/
+theorem compact_store_lookup (c : Cfg) (s : Engine) (h : s.runs.isEmpty = false) (key : SKey) :
+    (s.compact c).store.lookup key = (sunkOf s ++ s.store).lookup key := by
+  rw [compact_store c s h, List.lookup_append, List.lookup_append]
+  cases hs : (sunkOf s).lookup key with
+  | some v => rfl
+  | none =>
+    simp only [Option.none_or]
+    unfold keptOf
+    split
+    · apply lookup_filter_keep_key
+      intro q _ hq
+      rw [Bool.not_eq_true', List.any_eq_false]
+      intro r hr hrq
+      have hrk : r.1 = key := by rw [← hq]; simpa using hrq
+      have := lookup_some_of_mem' (sunkOf s) r hr
+      rw [hrk] at this
+      obtain ⟨v, hv⟩ := this
+      rw [hs] at hv; cases hv
+    · rfl
+
+theorem keptOf_noSunk (c : Cfg) (s : Engine) (h : sunkOf s = []) : keptOf c s = s.store := by
+  unfold keptOf
+  rw [h]
+  split
+  · apply List.filter_eq_self.mpr; intro a _; rfl
+  · rfl
 
 /-- **the root after `compact`**: when the source reads `tree.root()` after the insert loops
     (`c.rootAfterInserts`), then — whatever root splits happened during the loops (`c.rootMoves`
@@ -92,9 +159,8 @@ theorem RootOK.compact (c : Cfg) (hflag : c.rootAfterInserts = true) {s : Engine
       simp only [if_true] at hp hs
       refine ⟨by rw [hp, hs]; exact h.eq, fun h0 => ?_⟩
       rw [hp] at h0
-      rw [hst, h.empty h0]
       have : sunkOf s = [] := by simpa using hemp
-      rw [this]; rfl
+      rw [hst, keptOf_noSunk c s this, h.empty h0, this]; rfl
     · have hemp' : (sunkOf s).isEmpty = false := by
         cases hq : (sunkOf s).isEmpty with
         | true => exact absurd hq hemp
@@ -116,8 +182,8 @@ theorem RootOK.compact (c : Cfg) (hflag : c.rootAfterInserts = true) {s : Engine
 
 /-- the state after a compaction that had something to compact, as a function of the new segment, the
     sunk properties, the checkpoint txid, the root the engine keeps and the root the tree has -/
-def compactedWith (s : Engine) (seg : Seg) (sunk : Store) (upTo root sr : Nat) : Engine :=
-  { s with segStore := seg :: s.segStore, store := sunk ++ s.store, storeRoot := sr,
+def compactedWith (s : Engine) (seg : Seg) (st : Store) (upTo root sr : Nat) : Engine :=
+  { s with segStore := seg :: s.segStore, store := st, storeRoot := sr,
            wal := s.wal ++ [.beginTx s.nextTxid,
                             .manifestSwitch (s.epoch + 1) ((seg :: s.segs).map (·.id)) root,
                             .checkpoint upTo (s.epoch + 1) root, .commitTx s.nextTxid],
@@ -126,14 +192,12 @@ def compactedWith (s : Engine) (seg : Seg) (sunk : Store) (upTo root sr : Nat) :
            segs := seg :: s.segs, epoch := s.epoch + 1 }
 
 theorem compact_eq (c : Cfg) (s : Engine) (h : s.runs.isEmpty = false) :
-    ∃ root sr, s.compact c = compactedWith s
-      (buildForward s.nextSegId (collectRunEdges (!c.compactOwnLast) s.runs [] [])).persist
-      ((Engine.sinkProps (·.nprops) s.runs).map (fun p => (SKey.node p.1.1 p.1.2, p.2)) ++
-        (Engine.sinkProps (·.eprops) s.runs).map (fun p => (SKey.edge p.1.1 p.1.2, p.2)))
+    ∃ st root sr, s.compact c = compactedWith s
+      (buildForward s.nextSegId (collectRunEdges (!c.compactOwnLast) s.runs [] [])).persist st
       (s.runs.foldl (fun m r => max m r.txid) 0) root sr := by
   unfold Engine.compact compactedWith
   rw [h]
-  exact ⟨_, _, rfl⟩
+  exact ⟨_, _, _, rfl⟩
 
 theorem compact_noop (c : Cfg) (s : Engine) (h : s.runs.isEmpty = true) : s.compact c = s := by
   unfold Engine.compact; rw [h]; rfl
